@@ -159,8 +159,12 @@ MNT_DEV = [b"/dev/sda1", b"/dev/root", b"rootfs", b"none", b"tmpfs", b"proc", b"
            b"//server/share\\040name", b"/dev/\xe9", b"overlay", b"UUID=abc", b"/dev/loop0"]
 MNT_DIR = [b"/", b"/mnt/a", b"/mnt/with\\040space", b"/mnt/tab\\011x", b"/mnt/nl\\012x", b"/mnt/bs\\134x",
            b"/proc", b"/sys", b"/mnt/\xff", b"/a/very/" + b"long/" * 30, b"/mnt/literal\\0", b"/mnt/\\04"]
-MNT_TYPE = [b"ext4", b"tmpfs", b"proc", b"sysfs", b"zfs", b"overlay", b"xfs", b"fuse.sshfs", b"nfs4", b"btrfs"]
-MNT_OPTS = [b"rw", b"rw,relatime", b"ro,nosuid,nodev,noexec", b"rw,size=100k", b"defaults"]
+# (the last ones are not UTF-8: the call raises UnicodeDecodeError - and must
+# release what it had built for that entry exactly once)
+MNT_TYPE = [b"ext4", b"tmpfs", b"proc", b"sysfs", b"zfs", b"overlay", b"xfs", b"fuse.sshfs", b"nfs4", b"btrfs",
+            b"ext\xff4"]
+MNT_OPTS = [b"rw", b"rw,relatime", b"ro,nosuid,nodev,noexec", b"rw,size=100k", b"defaults",
+            b"rw,iocharset=\xe9", b"\x80"]
 
 
 def mounts_case():
